@@ -46,6 +46,13 @@ impl TryFrom<InputSchema> for Properties {
             .unwrap_or(false);
         let allow_error_fallback = allow.as_ref().map(|a| a.error_fallback.is_present());
 
+        if method.is_none() && !allow_any_method {
+            return Err(darling::Error::custom(
+                "You must specify which HTTP method(s) this route accepts.\n\
+                Use the `method` argument, or `allow(any_method)` to accept them all.",
+            ));
+        }
+
         if let Some(method) = method.as_ref() {
             if allow_any_method {
                 let msg = match method {
